@@ -3,6 +3,7 @@ package sym
 // extras.go: tier bounds, known-finding regions, witnesses, static label scan, pinned replay.
 
 import (
+	"fmt"
 	"golang.org/x/tools/go/ssa/ssautil"
 	"os"
 	"go/constant"
@@ -244,7 +245,13 @@ func (p *Program) ReplayConcrete(v Violation) bool {
 		ex := NewExec(p, s, prefix)
 		ex.entry = v.Entry
 		ex.pin = v.Model
-		_, viol := p.runPath(ex, fn)
+		res, viol := p.runPath(ex, fn)
+		if os.Getenv("GOSYM_REPLAY_DEBUG") != "" {
+			fmt.Fprintf(os.Stderr, "replay path prefix=%v outcome=%+v violations=%d forks=%d\n", prefix, res, len(viol), len(ex.forks))
+			for _, x := range viol {
+				fmt.Fprintf(os.Stderr, "  violated: %q\n", x.Label)
+			}
+		}
 		for _, x := range viol {
 			if x.Label == v.Label {
 				return true
